@@ -151,7 +151,8 @@ ParNextParallel(it, side) ==
                IF d[1] THEN <<"E", r[2], d[2], SetErr(it1, d[2])>>
                ELSE ParNextParallel(SetErr(it1, d[2]), side)
 \* ParallelsIterator::new (thick_points.rs:81-131)
-ParInit(s, e, thickness) ==
+\* off = "N" (StrokeOffset::None), "L" (Left), "R" (Right); :106-110 the first side, :128 the centre line is skipped
+ParInitO(s, e, thickness, off) ==
   LET ls   == IF s = e THEN <<0, 0>> ELSE s                                              \* :87 HORIZONTAL_LINE
       le   == IF s = e THEN <<1, 0>> ELSE e
       par  == BParams(ls, le)
@@ -162,14 +163,15 @@ ParInit(s, e, thickness) ==
                 thresh |-> (thickness * 2) * (thickness * 2) * LenSq(dl),                \* :98-99 (i64 in the code; no overflow here)
                 flip |-> perp.psMinor = PNeg(par.psMajor),                               \* :104-105
                 left |-> BInit(s), leftErr |-> 0, right |-> BInit(s), rightErr |-> 0,
-                side |-> "R" ]                                                           \* :108
-  IN ParNextParallel(it0, "L")[4]                                                        \* :128 skip centre line
+                side |-> IF off = "L" THEN "L" ELSE "R", off |-> off ]                   \* :106-110
+  IN ParNextParallel(it0, IF it0.side = "L" THEN "R" ELSE "L")[4]                        \* :128 skip centre line
+ParInit(s, e, thickness) == ParInitO(s, e, thickness, "N")
 \* Iterator::next (thick_points.rs:170-203): <<some?, [b, kind], state'>>
 ParNext(it) ==
   IF it.acc * it.acc > it.thresh THEN <<FALSE, <<>>, it>>                                \* :171
   ELSE LET r   == ParNextParallel(it, it.side)
            it1 == [r[4] EXCEPT !.acc = @ + (IF r[1] = "N" THEN it.perp.esMinor ELSE it.perp.esMajor),
-                               !.side = IF it.side = "L" THEN "R" ELSE "L"]              \* :198-200
+                               !.side = IF it.off # "N" THEN it.side ELSE IF it.side = "L" THEN "R" ELSE "L"]   \* :198-200
        IN <<TRUE, [b |-> BWithErr(r[2], r[3]), kind |-> r[1]], it1>>
 
 \* ThickPoints (thick_points.rs:209-251)   state [parallel, len, rem, iter]
@@ -200,13 +202,18 @@ ExtLoop(it, nextIsRight, l, r) ==                                               
   ELSE IF nextIsRight THEN ExtLoop(n[3], FALSE, l, <<n[2].b.pt, n[2].kind>>)
        ELSE ExtLoop(n[3], TRUE, <<n[2].b.pt, n[2].kind>>, r)
 \* << left line, right line >>, each << start, end >>
-ExtentsT(s, e, w) ==
-  LET it     == ParInit(s, e, w)
+RECURSIVE ParLast(_, _)
+ParLast(it, acc) == LET n == ParNext(it) IN IF ~n[1] THEN acc ELSE ParLast(n[3], <<n[2].b.pt, n[2].kind>>)   \* Iterator::last
+ExtentsO(s, e, w, off) ==
+  LET it     == ParInitO(s, e, w, off)
       reduce == PAdd(it.par.psMajor, it.par.psMinor)                                     \* :116-117
-      lr     == ExtLoop(it, TRUE, <<s, "N">>, <<s, "N">>)
+      lr     == CASE off = "N" -> ExtLoop(it, TRUE, <<s, "N">>, <<s, "N">>)
+                  [] off = "L" -> <<ParLast(it, <<s, "N">>), <<s, "N">>>>                \* :137-141
+                  [] OTHER     -> <<<<s, "N">>, ParLast(it, <<s, "N">>)>>                \* :142-146
       delta  == PSub(e, s)
       Mk(x)  == <<x[1], PSub(PAdd(x[1], delta), IF x[2] = "E" THEN reduce ELSE <<0, 0>>)>>  \* :154-170
   IN <<Mk(lr[1]), Mk(lr[2])>>
+ExtentsT(s, e, w) == ExtentsO(s, e, w, "N")
 LineStyledBoxT(s, e, w) ==
   LET x == ExtentsT(s, e, w)  a == x[1][1]  b == x[1][2]  c == x[2][1]  d == x[2][2]
       lo == <<Min(Min(a[1], b[1]), Min(c[1], d[1])), Min(Min(a[2], b[2]), Min(c[2], d[2]))>>
